@@ -21,12 +21,15 @@ RULE = (
 ASSUMPTIONS = [
     "process death = no further file-system operation happens; completed operations persist (no power-loss reordering)",
     "forked / multi-process savers are exercised in-process only",
-    "threaded scenarios run under the deterministic default schedule (so operation numbering is stable); schedule x fault combinations only in the thorough tier (delay bound 1)",
+    "threaded scenarios run under two deterministic schedules (keep running the current thread / always switch to the newest enabled thread), so operation numbering is stable within a scenario; schedule x fault combinations only in the thorough tier (delay bound 1)",
 ]
-BOUNDS = {"quick": "16 scenarios, all single faults + retry", "thorough": "16 scenarios, single faults + retry + second fault during retry (every k2 for a rotating slice of k); schedule exploration of pool/threaded saving with one fault"}
+BOUNDS = {"quick": "20 scenarios, all single faults + retry", "thorough": "20 scenarios, single faults + retry + second fault during retry (every k2 for a rotating slice of k); schedule exploration of pool/threaded saving with one fault"}
 RUN = "0"
 
 IV = ((0, 1), (2, 3), (4, 5), (5, 6))
+
+
+POLICY = {"first": None, "last": (lambda s, en, ce: len(en) - 1)}  # deterministic schedules for threaded scenarios
 
 
 def variants_for(kind):
@@ -47,10 +50,11 @@ class Scenario:
 
 
 class MakeScenario(Scenario):
-    def __init__(self, gname, bounds, rechunk, processor, workers=None, call="make", prebroken=False, forbid=None, inline=False):
+    def __init__(self, gname, bounds, rechunk, processor, workers=None, call="make", prebroken=False, forbid=None, inline=False, policy="first"):
         self.gname, self.bounds, self.rechunk, self.processor, self.workers, self.call, self.prebroken = gname, bounds, rechunk, processor, workers, call, prebroken
+        self.policy = policy
         self.inline = inline  # allow_multiprocess + parallel='process' plugins -> ParallelSourcePlugin with inlined (forked) savers, run in-process
-        self.name = f"{call}:{gname}:{processor}:w{workers}:rc{rechunk}:b{len(bounds)-1}" + (":prebroken" if prebroken else "") + (":inlined" if inline else "")
+        self.name = f"{call}:{gname}:{processor}:w{workers}:rc{rechunk}:b{len(bounds)-1}" + (":prebroken" if prebroken else "") + (":inlined" if inline else "") + (":sched-last" if policy == "last" else "")
         self.threaded = processor == "threaded_mailbox"
         self.spec = g.catalogue()[gname]
         self.sources = {n["name"]: dict(iv=IV, bounds=bounds) for n in self.spec if n["kind"] == "source"}
@@ -75,7 +79,7 @@ class MakeScenario(Scenario):
         world = g.World(self.spec, self.sources)
         return g.make_classes(self.spec, world, attrs)
 
-    def build(self, d):
+    def build(self, d, controlled=True):
         cl = self.classes()
         opts = dict(g.CTX_DEFAULTS)
         opts.update(allow_rechunk=self.rechunk is not None, allow_multiprocess=self.inline)
@@ -90,7 +94,7 @@ class MakeScenario(Scenario):
                 f = lambda: st.make(RUN, self.target, progress_bar=False, **kw)
             else:
                 f = lambda: st.get_array(RUN, self.target, progress_bar=False, **kw)
-            return ctxrun.run_controlled(f) if self.threaded else f()
+            return ctxrun.run_controlled(f, POLICY[self.policy]) if (self.threaded and controlled) else f()
 
         # a fault-free run stores every (ALWAYS-saved) type; a retry only has to deliver the target
         self.retry_should = [self.target]
@@ -100,15 +104,15 @@ class MakeScenario(Scenario):
 class SaverScenario(Scenario):
     """bare Saver.save_from of 3 chunks, serial or with a thread pool"""
 
-    def __init__(self, pool, rechunk):
-        self.pool, self.rechunk = pool, rechunk
-        self.name = f"save_from:pool{int(pool)}:rc{rechunk}"
+    def __init__(self, pool, rechunk, policy="first"):
+        self.pool, self.rechunk, self.policy = pool, rechunk, policy
+        self.name = f"save_from:pool{int(pool)}:rc{rechunk}" + (":sched-last" if policy == "last" else "")
         self.threaded = pool
         self.types = ["dat"]
         self.dtype = ss.DT_END
         self.ref = {"dat": ss.mk_rows(IV, self.dtype, scale=600)}
 
-    def build(self, d):
+    def build(self, d, controlled=True):
         lineage = {"dat": ("Plug", "0.0", {})}
         key = strax.DataKey(RUN, "dat", lineage)
         tmb = (self.rechunk * self.dtype.itemsize + 1) / 1e6 if self.rechunk else strax.DEFAULT_CHUNK_SIZE_MB
@@ -149,7 +153,7 @@ class SaverScenario(Scenario):
                     if ex:
                         ex.shutdown(wait=True)
 
-            return ctxrun.run_controlled(f) if self.pool else f()
+            return ctxrun.run_controlled(f, POLICY[self.policy]) if (self.pool and controlled) else f()
 
         return ctx, action, ["dat"]
 
@@ -160,7 +164,7 @@ class CopyScenario(MakeScenario):
         self.name = f"copy_to_frontend:rc{rechunk}"
         self.copy_rechunk = rechunk
 
-    def build(self, d):
+    def build(self, d, controlled=True):
         cl = self.classes()
         d1, d2 = os.path.join(d, "a"), os.path.join(d, "b")
 
@@ -204,6 +208,12 @@ def scenarios(tier):
             MakeScenario("diamond", b2, None, "single_thread"),
             MakeScenario("chain2", b3, None, "threaded_mailbox", workers=2, inline=True),
             MakeScenario("chain3", b3, None, "threaded_mailbox", workers=2, inline=True),
+            # the same threaded / pool histories under a second deterministic schedule: always switch to the
+            # most recently enabled thread (workers run ahead of the thread that submitted them)
+            SaverScenario(True, None, policy="last"),
+            SaverScenario(True, 1, policy="last"),
+            MakeScenario("chain2", b3, 2, "threaded_mailbox", workers=2, policy="last"),
+            MakeScenario("chain2", b2, None, "threaded_mailbox", policy="last"),
         ]
     return S
 
@@ -244,11 +254,13 @@ def verify(res, sc, ctx, should, case, phase, require_all):
     return all_ok
 
 
-def run_fault(res, sc, si, fault, fault2=None):
+def run_fault(res, sc, si, fault, fault2=None, controlled=True, choices=None):
     """one faulted execution + verification + retry (+ optional second fault during the retry)"""
     case = dict(scenario=si, name=sc.name, fault=fault, fault2=fault2)
+    if choices is not None:
+        case["choices"] = choices
     d = ctxrun.fresh_dir("c04")
-    ctx, action, should = sc.build(d)
+    ctx, action, should = sc.build(d, controlled=controlled)
     fsfault.ST.reset()
     if hasattr(sc, "_prepare"):
         sc._prepare()
@@ -323,9 +335,32 @@ def op_log(sc):
     return list(fsfault.ST.log)
 
 
+class FaultSched(explore.Harness):
+    """one fault at operation k (by kind and per-target ordinal, so that it means the same thing in every schedule)
+    x every schedule with <=1 delay of the threaded / pool scenario"""
+
+    def __init__(self, sc, si, fault):
+        self.sc, self.si, self.fault = sc, si, fault
+        self.r = Result()
+
+    def main(self):
+        run_fault(self.r, self.sc, self.si, self.fault, controlled=False)
+
+    def final(self, s):
+        if self.r.violations:
+            v = self.r.violations[0]
+            return v["fingerprint"], v["fingerprint"] + " :: " + v["what"]
+        return "ok", None
+
+
 def plan(tier, seed):
     S = scenarios(tier)
     jobs = []
+    if tier == "thorough":
+        for si, sc in enumerate(S):
+            if sc.threaded and not getattr(sc, "inline", False):
+                for sh in range(4):
+                    jobs.append(("sched", si, sh, 4, tier, seed))
     for si, sc in enumerate(S):
         nsh = 4 if tier == "quick" else 8
         for sh in range(nsh):
@@ -349,6 +384,24 @@ def run_job(job):
     kind, si, sh, nsh, tier, seed = job
     res = Result()
     sc = scenarios(tier)[si]
+    if kind == "sched":
+        with warnings.catch_warnings():
+            warnings.simplefilter("ignore")
+            log = op_log(sc)
+            for k, opkind, path in log:
+                if k % nsh != sh or opkind not in ("write", "rename"):
+                    continue
+                flt = ("raise", k, "plain")
+                r = explore.explore(lambda: FaultSched(sc, si, flt), regime="delay", bound=1, hashing=False, max_execs=3000)
+                res.evals += r.executions
+                res.count("sched_fault_executions", r.executions)
+                res.nt("sched", sc.name, k)
+                if r.cap_hit:
+                    res.caps_hit.append(f"{sc.name} k={k}: {r.cap_hit}")
+                for kk, msg, choices in r.violations[:2]:
+                    res.violation("sched:" + msg.split(" :: ")[0], f"[{len(choices)} scheduling choices] " + msg[:300], dict(scenario=si, name=sc.name, fault=flt, fault2=None, choices=choices))
+        fsfault.ST.reset()
+        return res
     with warnings.catch_warnings():
         warnings.simplefilter("ignore")
         log = op_log(sc)
@@ -391,6 +444,11 @@ def replay(case):
     assert sc.name == case["name"], (sc.name, case["name"])
     f = tuple(case["fault"]) if case["fault"] else None
     f2 = tuple(case["fault2"]) if case.get("fault2") else None
+    if case.get("choices") is not None:
+        h, s_, info = explore.replay(lambda: FaultSched(sc, case["scenario"], f), case["choices"])
+        k, v = h.final(s_)
+        fsfault.ST.reset()
+        return [dict(fingerprint="sched:" + str(k), what=v)] if v else []
     with warnings.catch_warnings():
         warnings.simplefilter("ignore")
         run_fault(res, sc, case["scenario"], f, f2)
